@@ -124,6 +124,14 @@ claim("C18", "exploration",
       "the monitor requires, per file in the window: destructive => DS102/DS103 on a causing statement and a failing exit; additive or temp-only => no destructive diagnostic.",
       "Exploration level: random histories; files neither destructive nor additive/temp-only are unconstrained. Trusted: position -> statement mapping, SQLite dev database.",
       "3 C18")
+claim("C20", "exploration",
+      "Outputs as a function of (operation, input) (Observe.tla); repeated, multi-process, concurrent (-race) and permuted executions of plan / format / hash / MarshalHCL / Dir.Checksum and of the CLI recorded as observations and validated by TLC",
+      "The determ harness enumerates foreign-key graphs over 3 tables x roles (created / dropped / kept) plus random graphs over 5-8 tables for MySQL, PostgreSQL and SQLite, and all subsets of a file-name catalogue with equal version prefixes; "
+      "every input is executed 3 times sequentially, in 2 (5, thorough) further processes, 2 times over an 8-goroutine worker pool next to unrelated inputs, again under the race detector, with up to 3 permutations of the top-level HCL blocks "
+      "and with permuted MemDir insertion orders and a LocalDir copy; the CLI repeats `migrate diff` (original and permuted documents), `schema inspect`, `migrate hash` / `validate` in fresh processes. TLC requires identical digests inside each "
+      "(op, input) group, and for permuted sources the same statement multiset and the same resulting schema.",
+      "Exploration level: inputs are enumerated / sampled, executions are finitely many (a map-order dependence with k alternatives escapes n executions with probability k^-(n-1) per input). Trusted: digests; block-level permutation.",
+      "3 C20")
 claim("C15", "exploration",
       "HCL round trip as an observation step of SchemaModel.tla, parametric in the type ids; registry-wide FormatType/ParseType fixpoint and MarshalHCL/EvalHCL round trips validated by TLC (HCLTrace.tla)",
       "For MySQL, PostgreSQL and SQLite every registered type spec x parameter grid is formatted, parsed and re-formatted (fixpoint) and round-tripped in a one-column table; the instances are rotated into the opaque types of 400 (all, thorough) "
